@@ -634,4 +634,227 @@ theorem file_converges_partial (conv : B → Conv (WireList R)) (eqv : Option (W
   have hcl : s.closed = false := hopen evs _ hev rfl
   exact (file_source_converges conv eqv mo empty hsound hempty (some c0) evs).2.2 hcl hr hp c v hc hv
 
+/-! ## 8. Proof depth: the exact region of the file statement, handler histories, redelivery in histories -/
+
+/-- whether the source has closed is a function of the event history alone: it is closed exactly after a `ClosingHistory`
+    (a `remove` or a rename-over while the file is watched, or the re-watch retries running out) -/
+theorem closed_iff_closingHistory (conv : B → Conv (WireList R)) (eqv : Option (WireList R) → Option (WireList R) → Bool)
+    (mo : Module R) (empty c0 : B) (evs : List (FileEv B)) :
+    (FileSrc.run conv eqv mo empty (FileSrc.init conv eqv mo (some c0)).1 evs).closed = true ↔ ClosingHistory evs := by
+  have h := phase_run conv eqv mo empty evs (FileSrc.init conv eqv mo (some c0)).1
+  have h1 := congrArg Prod.fst h
+  simp only [FileSrc.init] at h1
+  unfold ClosingHistory phaseOf
+  simp only [FileSrc.init]
+  rw [h1]
+
+/-- **Exact characterisation of the file statement.**  What keeps `file_converges_partial` partial is precisely the region
+    `ClosingHistory` (which contains the recorded finding `file-replace-over-closes-source`: `[replaceOver c]`, and the two
+    closings that are by design: removal, exhausted retries).  For an idle source whose path holds a decodable file with at
+    least one valid rule: the rules in force are those of the file's current content **iff** the history is outside the
+    region; inside the region the rules are empty whatever the file holds (`closingHistory_cleared`). -/
+theorem file_converges_iff (conv : B → Conv (WireList R)) (eqv : Option (WireList R) → Option (WireList R) → Bool)
+    (mo : Module R) (empty : B) (hsound : SoundFor mo eqv) (hempty : conv empty = .ok none) (c0 : B)
+    (evs : List (FileEv B)) :
+    let s := FileSrc.run conv eqv mo empty (FileSrc.init conv eqv mo (some c0)).1 evs
+    s.pending = false → s.rewatching = false → ∀ c v, s.content = some c → conv c = .ok v → validElems mo.valid v ≠ [] →
+      (List.Forall₂ (InForceFor mo) s.hm.2.enforced (validElems mo.valid v) ↔ ¬ ClosingHistory evs) := by
+  intro s hp hr c v hc hv hne
+  have hinv := file_source_converges conv eqv mo empty hsound hempty (some c0) evs
+  have hcl := closed_iff_closingHistory conv eqv mo empty c0 evs
+  constructor
+  · intro hf hclosing
+    have hnil : s.hm.2.enforced = [] := hinv.2.1 (Or.inl (hcl.mpr hclosing))
+    rw [hnil] at hf
+    cases hve : validElems mo.valid v with
+    | nil => exact hne hve
+    | cons x xs => rw [hve] at hf; cases hf
+  · intro hno
+    have : s.closed = false := by
+      cases h : s.closed with
+      | false => rfl
+      | true => exact absurd (hcl.mp h) hno
+    exact hinv.2.2 this hr hp c v hc hv
+
+/-- inside the region the rules are empty, whatever the path holds -/
+theorem closingHistory_cleared (conv : B → Conv (WireList R)) (eqv : Option (WireList R) → Option (WireList R) → Bool)
+    (mo : Module R) (empty : B) (hsound : SoundFor mo eqv) (hempty : conv empty = .ok none) (c0 : B)
+    (evs : List (FileEv B)) (h : ClosingHistory evs) :
+    (FileSrc.run conv eqv mo empty (FileSrc.init conv eqv mo (some c0)).1 evs).hm.2.enforced = [] :=
+  (file_source_converges conv eqv mo empty hsound hempty (some c0) evs).2.1
+    (Or.inl ((closed_iff_closingHistory conv eqv mo empty c0 evs).mpr h))
+
+/-- the region is inhabited: the recorded finding, a removal, exhausted retries … -/
+theorem closingHistory_inhabited (c : B) :
+    ClosingHistory [FileEv.replaceOver c] ∧ ClosingHistory ([FileEv.remove] : List (FileEv B)) ∧
+    ClosingHistory ([.renameAway, .giveUp] : List (FileEv B)) := ⟨rfl, rfl, rfl⟩
+
+/-- … and so is its complement (non-vacuity of the `iff`): writes, looks, rename-away + re-creation, rename-over into the
+    absent path stay outside -/
+example (c : B) : ¬ ClosingHistory [FileEv.write c, .proc, .renameAway, .recreate c, .write c, .proc, .renameAway, .replaceOver c] := by
+  simp [ClosingHistory, phaseOf, phStep]
+
+/-! ### handler histories with `base.add` / `base.remove` and arbitrary converter results (every byte string, every `ds.mode` wrapper) -/
+
+theorem deliver_track (c : Conv (WireList R)) (eqv : Option (WireList R) → Option (WireList R) → Bool) (mo : Module R)
+    (hsound : SoundFor mo eqv) (hm : Handler (WireList R) × Mgr R) (la : Option (WireList R)) (hinv : Inv mo hm)
+    (hla : List.Forall₂ (InForceFor mo) hm.2.enforced (validElems mo.valid la)) :
+    let r := deliver (fun (_ : Unit) => c) eqv mo hm ()
+    Inv mo r.1 ∧ List.Forall₂ (InForceFor mo) r.1.2.enforced
+      (validElems mo.valid (accVal c la)) := by
+  intro r
+  rcases deliver_cases (fun (_ : Unit) => c) eqv mo hm () with ⟨hp, hr⟩ | ⟨he, hr⟩ | ⟨v, hv, hc, hr⟩ | ⟨v, hv, _, hr⟩
+  · have e : r = (hm, .ret .nil) := hr
+    rw [e, hp]; exact ⟨hinv, by simpa [accVal] using hla⟩
+  · have e : r = (hm, .ret .err) := hr
+    rw [e, he]; exact ⟨hinv, by simpa [accVal] using hla⟩
+  · have e : r = (hm, .ret .nil) := hr
+    rw [e, hv]; exact ⟨hinv, by simpa [accVal] using hsound _ _ hc _ hinv⟩
+  · have e : r = (({ last := v }, { enforced := enforcedOf mo.valid mo.norm mo.equiv mo.reusable hm.2.enforced v }), .ret .nil) := hr
+    rw [e, hv]
+    have hrel := reuseBuild_rel mo (validElems mo.valid v) hm.2.enforced
+    exact ⟨by simpa [Inv, Sentinel.Datasource.Inv, enforcedOf] using hrel, by simpa [enforcedOf, accVal] using hrel⟩
+
+/-- **History-level "faithful or rejected, never half-applied".**  After any sequence of deliveries (direct or through the
+    Base; the converter result arbitrary: any payload, any mode wrapper), `AddPropertyHandler`s and `RemovePropertyHandler`s,
+    the rules in force are those of the **last delivery that reached the handler and that the converter accepted** — up to
+    the module's own rule equality (`InForceFor`: that is the `stale-equal-rule` region; `hotspot-paramkey-dropped` lives in
+    the converter, which is a parameter here).  Deliveries that do not reach the handler (a Base without it), converter
+    errors and converter panics leave everything as it was. -/
+theorem history_faithful (eqv : Option (WireList R) → Option (WireList R) → Bool) (mo : Module R)
+    (hsound : SoundFor mo eqv) (ops : List (HOp R)) :
+    let s := hrun eqv mo {} ops
+    Inv mo s.hm ∧ List.Forall₂ (InForceFor mo) s.hm.2.enforced (validElems mo.valid (lastAccepted true none ops)) := by
+  suffices h : ∀ (s : HSt R) (la : Option (WireList R)), Inv mo s.hm →
+      List.Forall₂ (InForceFor mo) s.hm.2.enforced (validElems mo.valid la) →
+      Inv mo (hrun eqv mo s ops).hm ∧
+      List.Forall₂ (InForceFor mo) (hrun eqv mo s ops).hm.2.enforced (validElems mo.valid (lastAccepted s.attached la ops)) from
+    h {} none (inv_init mo) (by simp [validElems])
+  have hcons : ∀ (s : HSt R) (o : HOp R) (os : List (HOp R)),
+      hrun eqv mo s (o :: os) = hrun eqv mo (hstep eqv mo s o).1 os := fun _ _ _ => rfl
+  induction ops with
+  | nil => intro s la hi hl; exact ⟨hi, hl⟩
+  | cons o os ih =>
+    intro s la hi hl
+    cases o with
+    | add => exact ih { s with attached := true } la hi hl
+    | remove => exact ih { s with attached := false } la hi hl
+    | deliver c vb =>
+      have ht := deliver_track c eqv mo hsound s.hm la hi hl
+      cases vb with
+      | false =>
+        have hs : (hstep eqv mo s (.deliver c false)).1 =
+            { s with hm := (deliver (fun (_ : Unit) => c) eqv mo s.hm ()).1 } := rfl
+        rw [hcons, hs]
+        have := ih { s with hm := (deliver (fun (_ : Unit) => c) eqv mo s.hm ()).1 } _ ht.1 ht.2
+        simpa [lastAccepted] using this
+      | true =>
+        cases hatt : s.attached with
+        | false =>
+          have hs : (hstep eqv mo s (.deliver c true)).1 = s := by simp [hstep, hatt]
+          rw [hcons, hs]
+          have := ih s la hi hl
+          simpa [lastAccepted, hatt] using this
+        | true =>
+          have hb := base_handle_single (fun (_ : Unit) => c) eqv mo s.hm ()
+          have hs : (hstep eqv mo s (.deliver c true)).1 =
+              { s with hm := (deliver (fun (_ : Unit) => c) eqv mo s.hm ()).1 } := by simp [hstep, hatt, hb]
+          rw [hcons, hs]
+          have := ih { s with hm := (deliver (fun (_ : Unit) => c) eqv mo s.hm ()).1 } _ ht.1 ht.2
+          simpa [lastAccepted, hatt] using this
+
+/-- a rejected delivery (converter error) changes nothing at all and returns the error — directly or through the Base -/
+theorem rejected_changes_nothing (eqv : Option (WireList R) → Option (WireList R) → Bool) (mo : Module R) (s : HSt R)
+    (vb : Bool) (hreach : reaches s.attached (HOp.deliver (R := R) .err vb) = true) :
+    hstep eqv mo s (.deliver .err vb) = (s, some (.ret .err)) := by
+  obtain ⟨hm0, att⟩ := s
+  simp only at hreach ⊢
+  have hd : deliver (fun (_ : Unit) => (Conv.err : Conv (WireList R))) eqv mo hm0 () = (hm0, .ret .err) := by
+    rcases deliver_cases (fun (_ : Unit) => (Conv.err : Conv (WireList R))) eqv mo hm0 () with
+      ⟨hp, _⟩ | ⟨_, hr⟩ | ⟨v, hv, _, _⟩ | ⟨v, hv, _, _⟩
+    · cases hp
+    · exact hr
+    · cases hv
+    · cases hv
+  cases vb with
+  | false => simp [hstep, hd]
+  | true =>
+    have hatt : att = true := by simpa [reaches] using hreach
+    subst hatt
+    have hb := base_handle_single (fun (_ : Unit) => (Conv.err : Conv (WireList R))) eqv mo hm0 ()
+    simp [hstep, hb, hd]
+
+/-- an updater that rejects what it is given (`ds.mode bad`, the circuit breaker with a value slice: the type-assertion
+    error) leaves the downstream exactly as it was, and the error is returned — but the payload **is** remembered
+    (`isPropertyConsistent` ran first), which is why such a handler is outside the property -/
+theorem updater_error_keeps_rules {D M : Type} (conv : B → Conv D) (eqv : Option D → Option D → Bool)
+    (upd : Option D → M → Upd M) (h : Handler D) (m : M) (src : B) (v : Option D)
+    (hc : conv src = .ok v) (he : eqv v h.last = false) (hu : upd v m = .err m) :
+    handle conv eqv upd h m src = ({ last := v }, m, Outcome.ret Ret.err) := by
+  simp [handle, handleBody, recovered, hc, he, hu]
+
+/-! ### idempotent redelivery inside histories -/
+
+theorem hstep_dup (eqv : Option (WireList R) → Option (WireList R) → Bool) (mo : Module R)
+    (hrefl : ∀ v, eqv v v = true) (s : HSt R) (o : HOp R) :
+    hstep eqv mo (hstep eqv mo s o).1 o = ((hstep eqv mo s o).1, (hstep eqv mo s o).2) := by
+  cases o with
+  | add => rfl
+  | remove => rfl
+  | deliver c vb =>
+    have hn := redelivery_noop (fun (_ : Unit) => c) eqv mo s.hm () (fun v _ => hrefl v)
+    simp only [] at hn
+    cases vb with
+    | false => simp [hstep, hn]
+    | true =>
+      cases hatt : s.attached with
+      | false => simp [hstep, hatt]
+      | true =>
+        have hb := base_handle_single (fun (_ : Unit) => c) eqv mo s.hm ()
+        have hb2 := base_handle_single (fun (_ : Unit) => c) eqv mo (deliver (fun (_ : Unit) => c) eqv mo s.hm ()).1 ()
+        simp [hstep, hatt, hb, hb2, hn]
+
+theorem hrun_append (eqv : Option (WireList R) → Option (WireList R) → Bool) (mo : Module R) (s : HSt R)
+    (xs ys : List (HOp R)) : hrun eqv mo s (xs ++ ys) = hrun eqv mo (hrun eqv mo s xs) ys := by
+  simp [hrun, List.foldl_append]
+
+/-- **Idempotent redelivery at history level** (side condition: `DeepEqual` recognises a value as itself — always, except
+    for a NaN specific-item key and the in-place normalised warm-up rule, see notes): inserting a duplicate of any operation
+    right after it — a delivery, direct or through the Base, or a handler addition/removal — anywhere in a history yields the
+    same state, the duplicate returns what the original returned, and **every later observation is unchanged**. -/
+theorem redelivery_history_noop (eqv : Option (WireList R) → Option (WireList R) → Bool) (mo : Module R)
+    (hrefl : ∀ v, eqv v v = true) (s : HSt R) (pre post : List (HOp R)) (o : HOp R) :
+    hrun eqv mo s (pre ++ [o, o]) = hrun eqv mo s (pre ++ [o]) ∧
+    (hstep eqv mo (hrun eqv mo s (pre ++ [o])) o).2 = (hstep eqv mo (hrun eqv mo s pre) o).2 ∧
+    hobs eqv mo (hrun eqv mo s (pre ++ [o, o])) post = hobs eqv mo (hrun eqv mo s (pre ++ [o])) post ∧
+    hrun eqv mo s (pre ++ o :: o :: post) = hrun eqv mo s (pre ++ o :: post) := by
+  have hd := hstep_dup eqv mo hrefl (hrun eqv mo s pre) o
+  have h1 : hrun eqv mo s (pre ++ [o, o]) = hrun eqv mo s (pre ++ [o]) := by
+    rw [hrun_append, hrun_append]
+    simp only [hrun, List.foldl_cons, List.foldl_nil]
+    exact congrArg Prod.fst hd
+  have h2 : (hstep eqv mo (hrun eqv mo s (pre ++ [o])) o).2 = (hstep eqv mo (hrun eqv mo s pre) o).2 := by
+    rw [hrun_append]
+    simp only [hrun, List.foldl_cons, List.foldl_nil]
+    exact congrArg Prod.snd hd
+  refine ⟨h1, h2, by rw [h1], ?_⟩
+  have e1 : pre ++ o :: o :: post = (pre ++ [o, o]) ++ post := by simp
+  have e2 : pre ++ o :: post = (pre ++ [o]) ++ post := by simp
+  rw [e1, e2, hrun_append eqv mo s (pre ++ [o, o]) post, hrun_append eqv mo s (pre ++ [o]) post, h1]
+
+/-- without any assumption on `DeepEqual`, for the modules that never reuse rule objects (system, circuit breaker, isolation) -/
+theorem redelivery_history_noop_exact (eqv : Option (WireList R) → Option (WireList R) → Bool)
+    (valid : R → Bool) (norm : R → R) (hm : Handler (WireList R) × Mgr R) (c : Conv (WireList R)) (post : List (HOp R))
+    (att : Bool) :
+    let mo : Module R := { valid := valid, norm := norm }
+    hobs eqv mo (hrun eqv mo { hm := hm, attached := att } [.deliver c false, .deliver c false]) post =
+      hobs eqv mo (hrun eqv mo { hm := hm, attached := att } [.deliver c false]) post := by
+  intro mo
+  have hn := redelivery_noop_exact (fun (_ : Unit) => c) eqv valid norm hm ()
+  simp only [] at hn
+  have : hrun eqv mo { hm := hm, attached := att } [.deliver c false, .deliver c false] =
+      hrun eqv mo { hm := hm, attached := att } [.deliver c false] := by
+    simp [hrun, hstep, mo, hn]
+  rw [this]
+
 end Sentinel.C18
